@@ -33,7 +33,7 @@ func (c06) Rule() string {
 }
 func (c06) Batches(string) int { return 32 }
 func (c06) Required(string) []string {
-	return []string{"runs", "matrix_runs", "generated_runs", "outcome_error", "outcome_value", "followup_ok", "callback_panics_raised", "object_method_panics_raised", "ctx.invoker", "ctx.finally", "ctx.deep1023", "delivery_pairs", "host_invocations"}
+	return []string{"runs", "matrix_runs", "generated_runs", "outcome_error", "outcome_value", "followup_ok", "callback_panics_raised", "object_method_panics_raised", "ctx.invoker", "ctx.finally", "ctx.deep1023", "delivery_pairs", "host_invocations", "argcount_runs"}
 }
 func (c06) Assumptions() []string {
 	return []string{"Go stack exhaustion through unbounded NATIVE recursion (cyclic containers) is outside the property's budget and not generated", "Go callbacks honour the Object contract (never return nil object with nil error)"}
@@ -487,6 +487,39 @@ func (m c06) Run(c *core.Ctx) {
 		}
 		m.delivery(c, f, mm)
 		c.Nontrivial("delivery " + f)
+	}
+	// argument counts: fewer, as many and (many) more arguments than the script declares parameters / has local slots
+	for si, src := range []string{
+		"return 1", "param a\nreturn a", "param (a, b)\nreturn [a, b]", "param (a, b)\nx := a\ny := b\nz := 3\nreturn [x, y, z]",
+		"param (...v)\nreturn v", "param (a, ...v)\nreturn [a, v]", "param (a, b, ...v)\nw := len(v)\nreturn [a, b, v, w]",
+		"param a\nf := func(x, y) { return [x, y] }\nreturn f(a, a)", "global G\nparam a\ntry {\n  return a + 1\n} catch e {\n  return \"caught\"\n}",
+	} {
+		for nargs := 0; nargs <= 12; nargs++ {
+			idx++
+			if idx%c.NBatch != c.Batch {
+				continue
+			}
+			src := src
+			args := make([]ugo.Object, nargs)
+			for i := range args {
+				args[i] = []ugo.Object{ugo.Int(i), ugo.String("s"), ugo.Undefined, ugo.Array{ugo.Int(1)}, nil}[i%5]
+				if args[i] == nil {
+					args[i] = ugo.Float(1.5)
+				}
+			}
+			if nargs == 12 {
+				args = make([]ugo.Object, 3000) // more arguments than the value stack has slots
+				for i := range args {
+					args[i] = ugo.Int(i)
+				}
+			}
+			if !c.Begin(func() string { return fmt.Sprintf("argument count %d for script %d\n%s", len(args), si, src) }) {
+				continue
+			}
+			m.run(c, src, fmt.Sprintf("%d arguments", len(args)), "argcount", mm, args)
+			c.Count("argcount_runs")
+			c.Nontrivial(fmt.Sprintf("argcount-%d-%d", si, nargs))
+		}
 	}
 	// generated programs with injected faults
 	n := c.Pick(300, 100000)
